@@ -1,6 +1,6 @@
 import Std.Data.HashMap
 import AsmjitVerif.Model.A64Operand
-import AsmjitVerif.Model.A64AsmSys
+import AsmjitVerif.Model.A64AsmConv
 import AsmjitVerif.Spec.A64Decode
 import AsmjitVerif.Gen.A64DB
 import AsmjitVerif.Gen.A64Tables
@@ -82,7 +82,7 @@ def step (st : State) (line : String) : State × String :=
   match ws with
   | "emit" :: rest =>
     match parseRequest rest with
-    | some rq => (st, showResult (AsmjitVerif.A64Asm.emitModel rq))
+    | some rq => (st, showResult (AsmjitVerif.A64Asm.emitTop rq))
     | none => (st, "bad-op")
   | "mon" :: rest =>
     -- mon <pos> <inst> <cc> <ops...> => <answer of the implementation>
